@@ -64,6 +64,16 @@ PROPS["C09"] = dict(level="exploration", race=False, tiers={
     "thorough": [dict(variant="", runs=400000, budget_s=2400), dict(variant="bigc", runs=60, budget_s=900, workers=1)],
 })
 
+PROPS["C19"] = dict(level="exploration", race=False, tiers={
+    "quick": [dict(variant="", runs=12000, budget_s=75)],
+    "thorough": [dict(variant="", runs=1500000, budget_s=2400)],
+})
+
+PROPS["C10"] = dict(level="fault_enumeration", race=False, tiers={
+    "quick": [dict(variant="", runs=160000, budget_s=75)],
+    "thorough": [dict(variant="enum", runs=2 * 2 * 3 * 2 * 6 * 2400, budget_s=3000), dict(variant="", runs=4000000, budget_s=1500)],
+})
+
 RULES = {}
 ASSUME = {}
 
